@@ -26,6 +26,7 @@ def runCase (c : Case) : IO Unit := do
   | "chunks" => runChunkStream c emit
   | "sweep" => runSweep c emit
   | "dacimg" => runDacImg c emit
+  | "hhf" => runHhf c emit
   | _ => emit 1 s!"ERR unknown-stream {c.stream}"
 
 partial def loop (h : IO.FS.Stream) (cur : Option Case) : IO Unit := do
